@@ -60,6 +60,11 @@ func (t *responseTracker) Unwrap() http.ResponseWriter {
 	return t.ResponseWriter
 }
 
+// ErrEndpointSkipped marks an attempt that never dialled the endpoint, for instance because
+// its circuit breaker is open. The retry loop moves on to the next candidate instead of
+// failing the request, and does not change the endpoint's health status.
+var ErrEndpointSkipped = errors.New("endpoint skipped")
+
 // ProxyFunc defines the signature for endpoint proxy implementations
 type ProxyFunc func(ctx context.Context, w http.ResponseWriter, r *http.Request, endpoint *domain.Endpoint, stats *ports.RequestStats) error
 
@@ -109,6 +114,12 @@ func (h *RetryHandler) ExecuteWithRetry(
 
 		if lastErr == nil {
 			return nil
+		}
+
+		if errors.Is(lastErr, ErrEndpointSkipped) {
+			// Nothing was sent and nothing was written: try the remaining candidates
+			availableEndpoints = h.removeFailedEndpoint(availableEndpoints, endpoint)
+			continue
 		}
 
 		if !IsConnectionError(lastErr) {
